@@ -156,31 +156,42 @@ def validate_traces(spec: Path, cfg: Path, traces: list, *, timeout: int = 900, 
     rejected = {}
     states = 0
     for base in range(0, len(traces), chunk):
-        part = traces[base:base + chunk]
-        wd = workdir("trace")
-        try:
-            tf = wd / "traces.json"
-            tf.write_text(json.dumps(part))
-            e = {"TRACE_FILE": str(tf)}
-            if env:
-                e.update(env)
-            r = tlc(spec, cfg, workers=1, env=e, timeout=timeout)
-            states += r.distinct
+        idx = list(range(base, min(base + chunk, len(traces))))
+        reruns = 0
+        while idx:
+            part = [traces[k] for k in idx]
+            wd = workdir("trace")
+            try:
+                tf = wd / "traces.json"
+                tf.write_text(json.dumps(part))
+                e = {"TRACE_FILE": str(tf)}
+                if env:
+                    e.update(env)
+                r = tlc(spec, cfg, workers=1, env=e, timeout=timeout)
+            finally:
+                shutil.rmtree(wd, ignore_errors=True)
             if r.error or not r.finished or r.rc == 124:
                 raise MachineryError(f"trace validation failed to run: {r.error}\n{r.out[-3000:]}")
             if r.invariant_violated:
-                # an invariant of the trace spec failed on a real trace: find which tid from the printed state
-                m = re.search(r"tid = (\d+)", r.counterexample())
-                t = int(m.group(1)) - 1 if m else 0
-                rejected[base + t] = ("invariant:" + r.invariant_violated, r.counterexample())
+                # an invariant of the trace spec failed on a real trace: TLC stops there, so record
+                # the offending trace and validate the others again without it
+                m = re.search(r"/\\ tid = (\d+)", r.counterexample()) or re.search(r"tid = (\d+)", r.counterexample())
+                if m is None:
+                    raise MachineryError("invariant violated in trace spec but no tid in counterexample\n" + r.out[-3000:])
+                t = int(m.group(1)) - 1
+                rejected[idx[t]] = ("invariant:" + r.invariant_violated, r.counterexample()[:1500])
+                del idx[t]
+                reruns += 1
+                if reruns > 60:
+                    raise MachineryError("more than 60 traces violate trace-spec invariants in one chunk")
                 continue
-            m = re.search(r'<<"REJECTED", \{(.*?)\}>>', r.out, re.S)
+            states += r.distinct
+            m = re.search(r'<<\s*"REJECTED",\s*\{(.*?)\}\s*>>', r.out, re.S)
             if m is None:
                 raise MachineryError("trace spec did not print a REJECTED line\n" + r.out[-3000:])
             for t, l in re.findall(r"<<(\d+), (\d+)>>", m.group(1)):
-                rejected[base + int(t) - 1] = (int(l), "")
-        finally:
-            shutil.rmtree(wd, ignore_errors=True)
+                rejected[idx[int(t) - 1]] = (int(l), "")
+            break
     return states, rejected
 
 
@@ -201,8 +212,27 @@ def load_known():
     return {"findings": [], "fixed": []}
 
 
+def import_hiten():
+    """Import hiten from the working tree with its logging silenced.  hiten's log_config creates
+    results/logs relative to the cwd at import time, so the process moves to the scratch dir first."""
+    import logging
+    WORK.mkdir(parents=True, exist_ok=True)
+    os.chdir(WORK)
+    import hiten  # noqa
+    root = logging.getLogger()
+    root.setLevel(logging.ERROR)
+    for h in list(root.handlers):
+        if isinstance(h, logging.FileHandler):
+            root.removeHandler(h)
+            h.close()
+        else:
+            h.setLevel(logging.ERROR)
+    return hiten
+
+
 class Check:
     def __init__(self, pid: str, level: str, tier: str | None = None, seed: int | None = None):
+        import_hiten()
         self.pid = pid
         self.level = level
         self.tier = tier or os.environ.get("VERIF_TIER", "quick")
